@@ -24,13 +24,33 @@ pub const W: [i128; 12] = [25, 35, -25, -35, 23, -23, 27, -27, 53, -53, 103, -10
 pub struct Family {
     pub name: String,
     pub ops: Vec<Op>,
-    /// unsigned÷unsigned can only produce non-negative results, where
-    /// Ceiling≡Up and Floor≡Down; those two pairs are exempt.
-    pub nonneg_only: bool,
+    /// Witness class.  Families are compared with the siblings of their own
+    /// class only, because what a witness set CAN separate depends on it:
+    /// `STD`  w/10 with a non-zero kept part, both signs: all 28 pairs;
+    /// `NONNEG` unsigned÷unsigned can only produce non-negative results, where
+    ///        Ceiling≡Up and Floor≡Down; those two pairs are exempt;
+    /// `SUB`  the kept part is zero and ONE digit is dropped (0.05 to one
+    ///        digit): the value is below the rounding quantum;
+    /// `TINY` the kept part is zero and the value is below a tenth of the
+    ///        quantum (0.001 to one digit): only the directed modes move it.
+    /// The last two exist because "this is as good as zero" shortcuts are
+    /// taken on exactly these inputs and are wrong for the directed modes.
+    pub class: usize,
 }
 
+pub const STD: usize = 0;
+pub const NONNEG: usize = 1;
+pub const SUB: usize = 2;
+pub const TINY: usize = 3;
+pub const N_CLASSES: usize = 4;
+
+/// w · 10^-(n+1) rounded to n digits
+pub const W_SUB: [i128; 12] = [1, -1, 5, -5, 7, -7, 3, -3, 4, -4, 6, -6];
+/// w · 10^-(n+3) rounded to n digits
+pub const W_TINY: [i128; 12] = [1, -1, 5, -5, 49, -49, 3, -3, 7, -7, 99, -99];
+
 fn fam(name: String, ops: Vec<Op>) -> Family {
-    Family { name, ops, nonneg_only: false }
+    Family { name, ops, class: STD }
 }
 
 pub fn families() -> Vec<Family> {
@@ -98,21 +118,58 @@ pub fn families() -> Vec<Family> {
                 v.push(fam(format!("div_rounded_ii/{}/form{}", ty.name(), f), each(&|w| Op::DivRoundedII { i: Int { ty, v: w }, j: 10, n: 0, form: f })));
             } else {
                 let ops: Vec<Op> = W.iter().filter(|w| **w > 0).map(|w| Op::DivRoundedII { i: Int { ty, v: *w }, j: 10, n: 0, form: f }).collect();
-                v.push(Family { name: format!("div_rounded_ii/{}/form{}", ty.name(), f), ops, nonneg_only: true });
+                v.push(Family { name: format!("div_rounded_ii/{}/form{}", ty.name(), f), ops, class: NONNEG });
             }
         }
         if ty.signed() {
             v.push(fam(format!("quantize_ii/{}", ty.name()), each(&|w| Op::QuantizeII { i: Int { ty, v: w }, j: 10 })));
         } else {
             let ops: Vec<Op> = W.iter().filter(|w| **w > 0).map(|w| Op::QuantizeII { i: Int { ty, v: *w }, j: 10 }).collect();
-            v.push(Family { name: format!("quantize_ii/{}", ty.name()), ops, nonneg_only: true });
+            v.push(Family { name: format!("quantize_ii/{}", ty.name()), ops, class: NONNEG });
         }
     }
     for var in 0..N_FMT_VARIANTS {
         v.push(fam(format!("display/variant{}/p=0", var), each(&|w| Op::Fmt { a: (w, 1), var, w: 8, p: 0, pauses: vec![], err_at: 0, reent: false })));
         v.push(fam(format!("display/variant{}/p=2", var), each(&|w| Op::Fmt { a: (w, 3), var, w: 3, p: 2, pauses: vec![], err_at: 0, reent: false })));
     }
-    let _ = IntTy::U8;
+    // the same values w/10 with sixteen more (zero) digits to drop
+    let deep = |w: i128| (w * 10i128.pow(16), 17u8);
+    v.push(fam("round/deep".into(), each(&|w| Op::Round { a: deep(w), n: 0 })));
+    v.push(fam("checked_round/deep".into(), each(&|w| Op::CheckedRound { a: deep(w), n: 0 })));
+    v.push(fam("quantize/deep".into(), each(&|w| Op::Quantize { a: deep(w), q: (1, 0), form: 0 })));
+    v.push(fam("mul_rounded/deep".into(), each(&|w| Op::MulRounded { a: deep(w), b: (1, 0), n: 0, form: 0 })));
+    v.push(fam("div_rounded/deep".into(), each(&|w| Op::DivRounded { a: deep(w), b: (1, 0), n: 0, form: 0 })));
+    v.push(fam("display/deep".into(), each(&|w| Op::Fmt { a: deep(w), var: 0, w: 0, p: 0, pauses: vec![], err_at: 0, reent: false })));
+    // values below the rounding quantum
+    for (class, cname, ws, t) in [(SUB, "sub", W_SUB, 1u8), (TINY, "tiny", W_TINY, 3u8)] {
+        let mut push = |name: String, f: &dyn Fn(i128) -> Op| {
+            v.push(Family { name, ops: ws.iter().map(|w| f(*w)).collect(), class });
+        };
+        let p10 = 10i128.pow(t as u32);
+        for n in [0i8, 2, -1] {
+            let nf = (n + t as i8) as u8;
+            push(format!("round/{}/n={}", cname, n), &|w| Op::Round { a: (w, nf), n });
+            push(format!("checked_round/{}/n={}", cname, n), &|w| Op::CheckedRound { a: (w, nf), n });
+        }
+        for f in 0..4u8 {
+            push(format!("mul_rounded/{}/form{}", cname, f), &|w| Op::MulRounded { a: (w, t + 1), b: (1, 0), n: 1, form: f });
+            push(format!("div_rounded/{}/greater/form{}", cname, f), &|w| Op::DivRounded { a: (w, t + 1), b: (1, 0), n: 1, form: f });
+            push(format!("div_rounded/{}/less/form{}", cname, f), &|w| Op::DivRounded { a: (w, 0), b: (p10 * 10, 0), n: 1, form: f });
+            push(format!("quantize/{}/form{}", cname, f), &|w| Op::Quantize { a: (w, t + 1), q: (1, 1), form: f });
+            push(format!("checked_div/{}/form{}", cname, f), &|w| Op::CheckedDiv { a: (w, 18), b: (p10, 0), form: f });
+        }
+        for f in 0..5u8 {
+            push(format!("mul/{}/form{}", cname, f), &|w| Op::Mul { a: (w, 18), b: (1, t), form: f });
+            push(format!("div/{}/form{}", cname, f), &|w| Op::Div { a: (w, 18), b: (p10, 0), form: f });
+        }
+        for ty in [IntTy::I32, IntTy::U64, IntTy::I128] {
+            push(format!("div_di/{}/{}", cname, ty.name()), &|w| Op::DivDI { a: (w, 18), i: Int { ty, v: p10 }, form: 0 });
+            push(format!("div_rounded_di/{}/{}", cname, ty.name()), &|w| Op::DivRoundedDI { a: (w, t - 1), i: Int { ty, v: 10 }, n: 0, form: 0 });
+        }
+        for var in 0..N_FMT_VARIANTS {
+            push(format!("display/{}/variant{}/p=1", cname, var), &|w| Op::Fmt { a: (w, t + 1), var, w: 0, p: 1, pauses: vec![], err_at: 0, reent: false });
+        }
+    }
     v
 }
 
@@ -131,16 +188,16 @@ pub struct L2Report {
     pub sample: String,
 }
 
-fn exempt(nonneg_only: bool, a: usize, b: usize) -> bool {
+fn exempt(class: usize, a: usize, b: usize) -> bool {
     // Ceiling(1)≡Up(7), Down(2)≡Floor(3) on non-negative results
-    nonneg_only && matches!((a, b), (1, 7) | (2, 3))
+    class == NONNEG && matches!((a, b), (1, 7) | (2, 3))
 }
 
 /// Runs on the CALLING thread — call it on a fresh one.
 ///
 /// Criterion (relative, so that an ARITHMETIC defect cannot raise a C19
 /// alarm): a family is flagged for a pair of modes only if it fails to
-/// separate them although some other family of the same sign domain does.
+/// separate them although some other family of the same witness class does.
 /// A defect in the shared rounding kernel (say a wrong tie rule that makes
 /// two modes coincide) coarsens every family alike and flags nothing; an
 /// operation that ignores or latches the thread's mode is coarser than its
@@ -285,9 +342,9 @@ fn run_on_this_thread(only: Option<&str>) -> L2Report {
         all_rows.push(rows);
     }
     // which pairs does ANY family of a sign domain separate?
-    let mut sep = [[[false; 8]; 8]; 2];
+    let mut sep = [[[false; 8]; 8]; N_CLASSES];
     for (f, rows) in fams.iter().zip(all_rows.iter()) {
-        let d = f.nonneg_only as usize;
+        let d = f.class;
         for a in 0..8usize {
             for b in (a + 1)..8usize {
                 if rows[a] != rows[b] {
@@ -331,10 +388,10 @@ fn run_on_this_thread(only: Option<&str>) -> L2Report {
             }
         }
         n_fams += 1;
-        let d = f.nonneg_only as usize;
+        let d = f.class;
         for a in 0..8usize {
             for b in (a + 1)..8usize {
-                if exempt(f.nonneg_only, a, b) {
+                if exempt(f.class, a, b) {
                     continue;
                 }
                 if rows[a] != rows[b] {
